@@ -26,6 +26,8 @@ import (
 	"github.com/zeromicro/go-zero/core/logx"
 	"github.com/zeromicro/go-zero/core/stores/cache"
 	"github.com/zeromicro/go-zero/core/stores/mon"
+	"github.com/zeromicro/go-zero/core/stores/redis"
+	"github.com/zeromicro/go-zero/core/syncx"
 	"github.com/zeromicro/go-zero/core/timex"
 	"github.com/zeromicro/go-zero/internal/verifh"
 	"go.mongodb.org/mongo-driver/bson"
@@ -76,9 +78,37 @@ func TestVerifC06Monc(t *testing.T) {
 		verifh.Run(mt.T, secs, func(cfg verifh.Cfg) (func(op []string) string, func()) {
 			cleaner := cache.VerifC06SwapCleaner()
 			env, conf := cache.VerifC06NewEnv(cfg.Int("nodes", 1), cfg.Str("type", "node"), cfg.Str("place", "-"))
-			opts := cache.VerifC06Options(cfg.Str("exp", "-"), cfg.Str("nf", "-"))
-			m := MustNewModel(mt.Name(), mt.DB.Name(), mt.Coll.Name(), conf, opts...)
-			env.Attach(m.cache)
+			// the instances of the section: several Models over the same cache servers, each built by one of the real
+			// constructors with its own cache.Options (see cache.VerifC06Inst)
+			var ms []*Model
+			own := map[string]syncx.SingleFlight{}
+			for _, sp := range cache.VerifC06Insts(cfg.Str("inst", "-"), cfg.Str("exp", "-"), cfg.Str("nf", "-")) {
+				opts := cache.VerifC06Options(sp.Exp, sp.Nf)
+				switch sp.Kind {
+				case "conn":
+					ms = append(ms, MustNewModel(mt.Name(), mt.DB.Name(), mt.Coll.Name(), conf, opts...))
+				case "node":
+					if len(conf) != 1 {
+						panic("inst kind `node` needs nodes=1")
+					}
+					ms = append(ms, MustNewNodeModel(mt.Name(), mt.DB.Name(), mt.Coll.Name(), redis.MustNewRedis(conf[0].RedisConf), opts...))
+				default:
+					b, ok := own[sp.Kind]
+					if !ok {
+						b = syncx.NewSingleFlight()
+						own[sp.Kind] = b
+					}
+					wm, err := NewModelWithCache(mt.Name(), mt.DB.Name(), mt.Coll.Name(), cache.New(conf, b, stats, mongo.ErrNoDocuments, opts...))
+					if err != nil {
+						panic(err)
+					}
+					ms = append(ms, wm)
+				}
+			}
+			env.Attach(ms[0].cache)
+			for _, x := range ms[1:] {
+				env.AttachMore(x.cache)
+			}
 			rows := map[int]c06Doc{}
 			ctx := context.Background()
 			down := mtest.CreateCommandErrorResponse(mtest.CommandError{Code: 2, Name: "BadValue", Message: c06DBDown})
@@ -91,7 +121,11 @@ func TestVerifC06Monc(t *testing.T) {
 				mt.ClearMockResponses()
 				mt.ClearEvents()
 				res, how := "", "order"
+				m := ms[cache.VerifC06InstOf(op, len(ms))]
 				switch op[0] {
+				case "insts":
+					// what the constructors built: implementation kind and barrier identity per instance and node
+					return fmt.Sprintf("ok q=0 cmds=- %s | %s", env.Instances(), env.Dump())
 				case "take":
 					pk := verifh.Atoi(op[1][1:])
 					switch r, ok := rows[pk]; {
@@ -272,6 +306,20 @@ var c06MoncScenario = func() verifh.Section {
 	return verifh.Section{Cfg: "exp=20000 nf=3000 stale=report nodes=1 type=node place=-", Ops: ops}
 }()
 
+// several Models over the same servers, replayed on every run: built by NewModel, NewNodeModel and
+// NewModelWithCache, each with its options; what one loads the others serve, what one invalidates is gone for all.
+var c06MoncInstances = verifh.Section{Cfg: "inst=conn/20000/3000,node/20000/3000,node/-/0,wc0/7000/1000,wc0/20000/3000,wc1/20000/3000 stale=report nodes=1 type=node place=-", Ops: []string{
+	"insts", "exec p1 put:1:10:1 via=InsertOne i=1", "take p1 j=500 i=0", "take p1 i=1", "take p1 i=3",
+	"exec p1 put:1:11:1 via=UpdateOne i=5", "take p1 i=2 j=1000", "take p1 i=0", "take p2 i=3 j=0", "take p2 i=0", "take p3 i=2 j=1000", "take p3 i=1",
+	"exec p1 put:1:12:1 via=ReplaceOne c=1 i=1", "exec p2 put:2:20:2 via=UpdateByID c=1 i=3", "tick 1 c=0", "take p1 i=4", "take p2 i=5",
+	"del p1,p2,p3 i=2", "set p5 r:5:50:5 i=2 j=1000", "get p5 i=4", "set p5 r:5:51:5 i=3 j=0", "get p5 i=0",
+}}
+
+var c06MoncInstancesCluster = verifh.Section{Cfg: "inst=conn/20000/3000,conn/-/-,wc0/1/1,conn/0/-1 stale=report nodes=3 type=cluster place=p1:0,p2:2,p3:1", Ops: []string{
+	"insts", "exec p1 put:1:10:1 via=InsertOne i=1", "exec p2 put:2:20:2 via=InsertOne i=2", "take p1 i=0 j=500", "take p2 i=1 j=0", "take p1 i=2", "take p2 i=3",
+	"exec p1,p2 put:1:11:2 via=UpdateMany c=1//1 i=3", "take p1 i=0", "tick 1 c=000", "take p2 i=2 j=1000", "take p1 i=1", "take p3 i=2 j=0", "take p3 i=3",
+}}
+
 func c06MoncMask(r *verifh.Rng, n int) string {
 	switch r.Intn(10) {
 	case 0, 1, 2, 3, 4, 5, 6:
@@ -311,7 +359,7 @@ func c06MoncDelMask(r *verifh.Rng, nodes, nk int) string {
 }
 
 func c06MoncGen(r *verifh.Rng) []verifh.Section {
-	secs := []verifh.Section{c06MoncScenario}
+	secs := []verifh.Section{c06MoncScenario, c06MoncInstances, c06MoncInstancesCluster}
 	nsec := verifh.Scale(16, 120)
 	offE, offN := r.Intn(100), r.Intn(100)
 	for i := 0; i < nsec; i++ {
@@ -341,13 +389,20 @@ func c06MoncGen(r *verifh.Rng) []verifh.Section {
 			}
 			return ""
 		}
-		var ops []string
+		inst, ni := cache.VerifC06GenInsts(r.Intn, nodes, exp, nf)
+		iv := func() string {
+			if ni == 1 {
+				return ""
+			}
+			return fmt.Sprintf(" i=%d", r.Intn(ni))
+		}
+		ops := []string{"insts"}
 		nops := r.Range(10, verifh.Scale(50, 80))
 		val := 0
 		for len(ops) < nops {
 			switch x := r.Intn(100); {
 			case x < 34:
-				ops = append(ops, fmt.Sprintf("take p%d%s%s%s", pkey(), j(), c06MoncMask(r, 3), dbf()))
+				ops = append(ops, fmt.Sprintf("take p%d%s%s%s", pkey(), j(), c06MoncMask(r, 3), dbf())+iv())
 			case x < 62:
 				val++
 				pk := pkey()
@@ -371,26 +426,26 @@ func c06MoncGen(r *verifh.Rng) []verifh.Section {
 				if len(keys) > 0 {
 					ks = strings.Join(keys, ",")
 				}
-				ops = append(ops, fmt.Sprintf("exec %s %s via=%s%s%s", ks, w, via, c06MoncDelMask(r, nodes, 3), dbf()))
+				ops = append(ops, fmt.Sprintf("exec %s %s via=%s%s%s", ks, w, via, c06MoncDelMask(r, nodes, 3), dbf())+iv())
 			case x < 68:
 				var keys []string
 				for k := r.Pick(1, 2, 3); k > 0; k-- {
 					keys = append(keys, fmt.Sprintf("%s%d", r.PickS("p", "p", "x"), pkey()))
 				}
-				ops = append(ops, fmt.Sprintf("del %s%s", strings.Join(keys, ","), c06MoncDelMask(r, nodes, 3)))
+				ops = append(ops, fmt.Sprintf("del %s%s", strings.Join(keys, ","), c06MoncDelMask(r, nodes, 3))+iv())
 			case x < 73:
 				pk := pkey()
 				key, v := fmt.Sprintf("p%d", pk), fmt.Sprintf("r:%d:%d:%d", pk, 900+r.Intn(5), pkey())
 				if r.Chance(1, 3) {
 					key, v = fmt.Sprintf("x%d", pkey()), fmt.Sprintf("k:%d", pk)
 				}
-				ops = append(ops, fmt.Sprintf("set %s %s%s%s", key, v, j(), c06MoncMask(r, 1)))
+				ops = append(ops, fmt.Sprintf("set %s %s%s%s", key, v, j(), c06MoncMask(r, 1))+iv())
 			case x < 79:
 				key := fmt.Sprintf("p%d", pkey())
 				if r.Chance(1, 3) {
 					key = fmt.Sprintf("x%d", pkey())
 				}
-				ops = append(ops, fmt.Sprintf("get %s%s", key, c06MoncMask(r, 2)))
+				ops = append(ops, fmt.Sprintf("get %s%s", key, c06MoncMask(r, 2))+iv())
 			case x < 81:
 				ops = append(ops, fmt.Sprintf("raw p%d j:%d %d", pkey(), r.Intn(9), r.Pick(1000, 5000, 100000)))
 			case x < 90:
@@ -410,7 +465,7 @@ func c06MoncGen(r *verifh.Rng) []verifh.Section {
 				ops = append(ops, fmt.Sprintf("tick %d c=%s", r.Pick(1, 1, 2, 4, 5, 6, 60), string(b)))
 			}
 		}
-		secs = append(secs, verifh.Section{Cfg: fmt.Sprintf("exp=%s nf=%s stale=report nodes=%d type=%s place=%s", exp, nf, nodes, typ, place), Ops: ops})
+		secs = append(secs, verifh.Section{Cfg: fmt.Sprintf("inst=%s stale=report nodes=%d type=%s place=%s", inst, nodes, typ, place), Ops: ops})
 	}
 	return secs
 }
